@@ -682,7 +682,9 @@ def native_histories(C):
                          ("c05_weak_plunge_deadlock.py", "a mechanical plunge whose ball comes back leaves the device able to "
                                                         "eject again"),
                          ("c05_skipped_ball_phantom.py", "after a ball skipped an idle device the next request is served by a "
-                                                        "source that really has a ball")):
+                                                        "source that really has a ball"),
+                         ('c05_player_controlled_eject_never_retried.py',
+                          'a player-controlled eject whose pulse does not move the ball is retried or reported as failed')):
         C.finite_checks.append(common.native_demo_check(demo_, what_))
 
 
